@@ -3,7 +3,7 @@
 claimed list, the not_applicable list and the commands cannot drift apart)."""
 import json, sys
 
-E1 = "E1 vsched: stateless DFS over thread schedules of the real Stream/Error code (syntactically rewritten to run under a cooperative scheduler, real Breeze0806/mysql driver over an in-memory connection, simulated master), deviation-bounded, happens-before fingerprint cache"
+E1 = "E1 vsched: stateless DFS over thread schedules of the real Stream/Error code (syntactically rewritten to run under a cooperative scheduler, real Breeze0806/mysql driver over an in-memory connection with its context watcher rewritten the same way, simulated master), deviation-bounded, happens-before fingerprint cache"
 E2 = "E2 histmc: exhaustive enumeration of bounded binlog histories x wire configurations x start positions through the real Stream, compared with an independent reference model"
 E3 = "E3 cellmc: bounded-exhaustive enumeration of the input space of the codec / value functions (explicit-state BFS for GTID sets) against an independent reference encoder and renderer"
 
@@ -12,8 +12,8 @@ checks = {
    text="Every schedule (bound 1 quick / 2 thorough, plus all default-policy roots) of failed attempt(s) followed by a clean attempt on one streamer, for every fault kind at every packet / transaction index, is executed on the real Stream code under a controlled scheduler; on each execution the accepted sequence must equal the committed transactions exactly once and each dump request must be a position from which exactly the unaccepted suffix is served.",
    note="Bounded: histories H1T (3 transactions) and H2 (rotation), <= 3 failed attempts, deviation bound; trusted: reference model, simulated master, syntactic rewrite, sequential consistency."),
  "C05": dict(engine="E1", design="6/C05", tech="stateless model checking of thread schedules (bounded deviations, HB-fingerprint cache) with exact deadlock/leak detection and vector-clock race detection inside the explorer",
-   text="All interleavings of caller/parser, library reader goroutine, simulated master and canceller up to the deviation bound, for every stop cause at every stop point, both pacings and three handler modes; deadlock (Stream or Error() never returns), leaked library goroutine, unclosed connection, handler discipline and unordered conflicting accesses to the driver's connection state are decided exactly per execution (no timeouts).",
-   note="Bounded schedules and histories; data races are decided at the granularity of the driver connection (every network operation is an access to the connection state), other memory is covered by the companion free-running -race pass only; one known finding (driver-state race at teardown) is listed in known_findings.json."),
+   text="All interleavings of caller/parser, library reader goroutine, the driver's context-watcher goroutine, simulated master and canceller up to the deviation bound, for every stop cause at every stop point (incl. cancellation before Stream, at the dial's return and with the master stalled at each stage of the handshake), both pacings and three handler modes; deadlock (Stream or Error() never returns), leaked library goroutine, unclosed connection, handler discipline and unordered conflicting accesses to the driver's connection state are decided exactly per execution (no timeouts).",
+   note="Bounded schedules and histories; data races are decided at the granularity of the driver connection (every network operation is an access to the connection state), plain accesses to library fields are instrumented too (vrt.Rd/Wr), the rest is covered by the companion free-running -race pass; known findings (driver-state race at teardown; socket and watcher goroutine left behind when the cancel lands between the driver's dial and its first look at the context: defect of the driver dependency) are listed in known_findings.json."),
  "C06": dict(engine="E1", design="6/C06", tech="stateless model checking of thread schedules (bounded deviations) x fault enumeration; oracle: cause -> (Stream, Error()) table evaluated on the facts of each execution",
    text="Same schedule space as C05; on every execution the returned values are checked against the facts of that execution: callback / connect / bad-event failures give Stream != nil; Stream == nil && Error() == nil only after a cancel issued before return or a consumed master EOF; ERR packets surface their message, transport failures their cause.",
    note="ERR alphabet: 3 codes x with/without SQL state x 1..300 byte messages; a cancel after Stream returned is outside the claim (the repository's TestStreamer_Error pins Error()==nil for a cancelled context)."),
@@ -39,7 +39,7 @@ m = {
  "setup_cmd": "./setup.sh",
  "hooks": {
   "guard": "verif",
-  "enable": "no source hooks are committed in /repo: every check regenerates its instrumentation from /repo's working tree (instr -> go build -overlay -tags verif); the only injected file outside the rewrite is replication/verif_export.go (//go:build verif)",
+  "enable": "no source hooks are committed in /repo: every check regenerates its instrumentation from /repo's working tree (instr -> go build -overlay -tags verif); the only injected file outside the rewrite is replication/verif_export.go (//go:build verif); for E1 the same overlay also replaces connection.go / connector.go of the driver dependency (module cache, untouched on disk) by their rewritten twins",
   "baseline_off_cmd": "cd /repo && GOFLAGS=-mod=mod GOPROXY=off GOSUMDB=off go test -json -vet=off -count=1 -timeout 25m ./...",
   "source_commits": [],
   "add_only": True
